@@ -18,7 +18,9 @@ import (
 	"os"
 	"time"
 
+	"github.com/iotaledger/hive.go/ds/serializableorderedmap"
 	"github.com/iotaledger/hive.go/serializer/v2"
+	"github.com/iotaledger/hive.go/serializer/v2/serix"
 
 	"verifharness/core"
 )
@@ -357,6 +359,96 @@ func hasZeroWidth(prog []dop) bool {
 	return false
 }
 
+// ---------------------------------------------------------------- ds/serializableorderedmap
+
+// The wire form of SerializableOrderedMap[uint8,uint16] is the model program <<Seq(4,3)>>: a uint32
+// count followed by count entries of 1 key byte + 2 value bytes (little endian).
+func isSOMapProg(prog []dop) bool {
+	return len(prog) == 1 && prog[0].Op == "Seq" && prog[0].A == 4 && prog[0].B == 3
+}
+
+var somapAPI = serix.NewAPI()
+
+// somapExpect folds the model's element list the way an ordered map does (a repeated key keeps its
+// first position and takes the last value).
+func somapExpect(elems []any) [][]int {
+	var out [][]int
+	idx := map[int]int{}
+	for _, e := range elems {
+		b := ints(e)
+		if i, ok := idx[b[0]]; ok {
+			out[i] = b
+			continue
+		}
+		idx[b[0]] = len(out)
+		out = append(out, b)
+	}
+	if out == nil {
+		out = [][]int{}
+	}
+	return out
+}
+
+func somapDecode(data []byte) (g deserGot) {
+	g.Vals = []any{}
+	o := guarded(true, false, func() {
+		m := serializableorderedmap.New[uint8, uint16]()
+		n, err := m.Decode(somapAPI, data)
+		g.Off = n
+		if err != nil {
+			g.Err = "error: " + err.Error()
+			return
+		}
+		entries := [][]int{}
+		m.ForEach(func(k uint8, v uint16) bool {
+			entries = append(entries, []int{int(k), int(v & 0xff), int(v >> 8)})
+			return true
+		})
+		g.Ok, g.Vals = true, []any{entries}
+	})
+	g.Alloc = o.alloc
+	if o.panicked {
+		g.Panic, g.Err = o.pmsg, "panic"
+	}
+	return g
+}
+
+func somapEncode(elems []any) ([]byte, error) {
+	m := serializableorderedmap.New[uint8, uint16]()
+	for _, e := range elems {
+		b := ints(e)
+		m.Set(uint8(b[0]), uint16(b[1])|uint16(b[2])<<8)
+	}
+	return m.Encode(somapAPI)
+}
+
+// somapCheck compares SerializableOrderedMap.Decode with the model outcome of <<Seq(4,3)>> over data.
+func somapCheck(rep *report, row map[string]any, data []byte, w deserWant) {
+	g := somapDecode(data)
+	rep.Calls++
+	class, text := "", ""
+	switch {
+	case g.Panic != "":
+		class, text = "panic", "panicked: "+g.Panic
+	case g.Off > len(data):
+		class, text = "over-consumed", fmt.Sprintf("reported %d consumed bytes of %d", g.Off, len(data))
+	case g.Alloc > allocBound(len(data)):
+		class, text = "alloc-from-prefix", fmt.Sprintf("allocated %d bytes for a %d-byte input", g.Alloc, len(data))
+	case w.Ok && !g.Ok:
+		class, text = "rejects-valid-input", "failed ("+g.Err+") on an encoding the model reads"
+	case !w.Ok && g.Ok:
+		class, text = "accepts-invalid-input", fmt.Sprintf("returned %s although the count exceeds what the input holds", canon(g.Vals))
+	case w.Ok && canon(g.Vals[0]) != canon(somapExpect(w.Vals[0].([]any))):
+		class, text = "wrong-value", fmt.Sprintf("returned entries %s, the model demands %s", canon(g.Vals[0]), canon(somapExpect(w.Vals[0].([]any))))
+	case w.Ok && g.Off != w.Off:
+		class, text = "wrong-consumed", fmt.Sprintf("reported %d consumed bytes, the model demands %d", g.Off, w.Off)
+	}
+	if class != "" {
+		rep.bad("SerializableOrderedMap.Decode:"+class, fmt.Sprintf("SerializableOrderedMap[uint8,uint16].Decode over %v %s", data, text),
+			deserCase{P: row["p"], Input: fromBytes(data), Want: row["w"]})
+	}
+}
+
 // ---------------------------------------------------------------- model -> code
 
 type deserWant struct {
@@ -413,7 +505,7 @@ func deserJudge(prog []dop, g deserGot, w deserWant, inputLen int) (class, text 
 	case g.Hung:
 		return "hang", "did not return"
 	case hasZeroWidth(prog) && g.Iters > inputLen+1:
-		return "iterates-count-times-for-zero-width-elements", fmt.Sprintf("called the element deserializer %d times for a %d-byte input (the count comes from the length prefix, no input is consumed)", g.Iters, inputLen)
+		return "iterates-count-times-for-zero-width-elements", fmt.Sprintf("called the element deserializer %s times for a %d-byte input (the count comes from the length prefix, the elements consume no input)", itersText(g.Iters), inputLen)
 	case g.Iters > inputLen+1:
 		return "iterates-beyond-input", fmt.Sprintf("ran %d element iterations on a %d-byte input", g.Iters, inputLen)
 	case g.Off > inputLen:
@@ -473,6 +565,19 @@ func cmdDeserTable(args []string) int {
 			}
 			rep.PerKind["rt"]++
 			model := toBytes(m["bytes"])
+			if isSOMapProg(prog) {
+				elems, _ := vals[0].([]any)
+				if len(somapExpect(elems)) == len(elems) { // distinct keys: the map holds exactly these entries
+					wb, err := somapEncode(elems)
+					rep.Calls++
+					if err != nil || !bytes.Equal(wb, model) {
+						rep.bad("SerializableOrderedMap.Encode:bytes-differ-from-model", fmt.Sprintf("SerializableOrderedMap[uint8,uint16].Encode of %s wrote %v (err %v), the model's layout is %v", canon(elems), wb, err, model),
+							deserCase{P: m["p"], V: m["v"], Input: fromBytes(model), Want: "encode"})
+					}
+					somapCheck(rep, map[string]any{"p": m["p"], "w": map[string]any{"ok": true, "vals": vals, "off": len(model), "errs": []any{}}}, model,
+						deserWant{Ok: true, Vals: vals, Off: len(model)})
+				}
+			}
 			for variant := 0; variant < 3; variant++ {
 				var wb []byte
 				var werr error
@@ -510,6 +615,7 @@ func cmdDeserTable(args []string) int {
 		}
 	}
 	allocSeen := map[string]int{}
+	var late []mismatch
 	if *totPath != "" {
 		if err := forEachLine(*totPath, func(m map[string]any) {
 			prog := parseProg(m["p"])
@@ -522,6 +628,9 @@ func cmdDeserTable(args []string) int {
 			if allocSeen[key] >= 3 && len(data) >= 4 && data[3] != 0 {
 				rep.Skipped++ // three allocation findings for this program are enough; do not burn gigabytes
 				return
+			}
+			if isSOMapProg(prog) {
+				somapCheck(rep, m, data, want)
 			}
 			for variant := 0; variant < 3; variant++ {
 				if variant > 0 && !hasNum(prog) {
@@ -545,8 +654,13 @@ func cmdDeserTable(args []string) int {
 					}
 				}
 				if class != "" {
-					rep.bad(name+":"+class, fmt.Sprintf("%s over input %v %s", progString(prog), data, text),
-						deserCase{P: m["p"], Input: fromBytes(data), Variant: variant, Want: m["w"]})
+					what := fmt.Sprintf("%s over input %v %s", progString(prog), data, text)
+					c := deserCase{P: m["p"], Input: fromBytes(data), Variant: variant, Want: m["w"]}
+					if hasZeroWidth(prog) && g.Iters <= 1024 { // keep the small counts back: the example shown first should be a big one
+						late = append(late, mismatch{name + ":" + class, what, c})
+						continue
+					}
+					rep.bad(name+":"+class, what, c)
 				}
 			}
 		}); err != nil {
@@ -556,6 +670,14 @@ func cmdDeserTable(args []string) int {
 	}
 	rep.write(*out)
 	return 0
+}
+
+// itersText: the harness' element deserializer stops a zero-width loop after 1024 calls.
+func itersText(n int) string {
+	if n > 1024 {
+		return "more than 1024 (stopped by the harness; the loop runs as often as the prefix says, up to 2^32-1)"
+	}
+	return fmt.Sprint(n)
 }
 
 func hasNum(prog []dop) bool {
